@@ -54,6 +54,8 @@ def sshow(s):
     if not isinstance(s, tuple):
         return str(s)
     t = s[0]
+    if t == "text":
+        return repr(s[1])
     if t == "opnd":
         return f"P{s[1]}" + (f":{s[2]}" if s[2] else "")
     if t == "imm":
@@ -222,6 +224,9 @@ class ArmAnalyzer:
         k = e["k"]
         L = e.get("l", 0)
         if k == "Lit":
+            if e.get("t") in ("str", "bytestr", "char", "byte"):
+                # a piece of text, not a number: `x != "0.0"` compares spellings and must never be evaluated numerically
+                return ("text", e["v"])
             return ("lit", e["v"])
         if k == "Path":
             p = e["p"]
